@@ -713,9 +713,28 @@ func TestC15Overlap(t *testing.T) {
 	g := kit.FullOpts()
 	g.DisposableBias = true
 	oo := overlapOpts{Gen: g, AKinds: []string{"get", "get", "get", "create"}, BKinds: []string{"close", "close", "close-ancestor", "pclose", "cancel"},
-		GateKind: allGates, ExtraWarm: 3, ExtraScopes: 2}
+		GateKind: allGates, ExtraWarm: 3, ExtraScopes: 2,
+		// in half of the programs the Close methods of some registrations fail (error or panic): what an
+		// operation that lost its scope reports is still the disposed error, not somebody's Close error
+		Prep: func(w *kit.World, rt *rapid.T) {
+			if !rapid.Bool().Draw(rt, "closeFailures") {
+				return
+			}
+			w.CloseFailRegs, w.ClosePanicRegs = map[int]bool{}, map[int]bool{}
+			for _, r := range w.Cfg.Regs {
+				if r.Form == kit.FormInstance {
+					continue
+				}
+				switch rapid.IntRange(0, 5).Draw(rt, "closeFails") {
+				case 0, 1:
+					w.CloseFailRegs[r.ID] = true
+				case 2:
+					w.ClosePanicRegs[r.ID] = true
+				}
+			}
+		}}
 	runOverlapTest(t, "C15", "operations-overlapping-close",
-		"controlled two-thread programs: thread A resolves (multi-output constructors, constructors that hand back one instance under two types, aliases, groups: the full generator) or creates a scope and is parked at the n-th constructor entry/exit or schedule point inside godi; thread B closes A's scope, an ancestor or the provider (or cancels the context) to completion; A is released; oracle: no call panics, no call hangs, and whatever A returns is a value or an error that classifies as the disposed error; non-trivial = A was parked",
+		"controlled two-thread programs: thread A resolves (multi-output constructors, constructors that hand back one instance under two types, aliases, groups: the full generator) or creates a scope and is parked at the n-th constructor entry/exit or schedule point inside godi; thread B closes A's scope, an ancestor or the provider (or cancels the context) to completion; A is released; in half of the programs Close methods of some registrations fail or panic; oracle: no call panics, no call hangs, and whatever A returns is a value or an error that classifies as the disposed error (never the Close error of what was disposed on arrival); non-trivial = A was parked",
 		oo,
 		func(c *overlapCase) *Failure {
 			f := c.checkOverlapResults("C15")
